@@ -209,6 +209,8 @@ func (f *Failover) Get(
 		value = val
 	} else if unexpectedBackendError != nil {
 		return nil, unexpectedBackendError // Cache backend failed with unexpected error.
+	} else {
+		value = val // Too stale value (if any) is served only if update fails.
 	}
 
 	// Check if update failed recently.
@@ -276,7 +278,8 @@ func (f *Failover) valueFromError(err error) (interface{}, bool, error) {
 			return errExpired.Value(), true, nil
 		}
 
-		return nil, false, nil
+		// Value is too stale to be served immediately, it is only a fallback for update failure.
+		return errExpired.Value(), false, nil
 	}
 
 	if errors.Is(err, ErrNotFound) {
